@@ -40,6 +40,8 @@ def required_cells(tier):
     req["dir:lattice26"] = 200
     req["dir:random"] = 200
     req["history:hash-alike-axis-built-first"] = 100
+    req["radius:Fraction"] = 200
+    req["radius:int"] = 200
     for n in (3, 4, 5, 24):
         req["n:%d" % n] = 5
     return req
@@ -104,7 +106,7 @@ def cases(rng, budget, widx, nworkers, tier):
             yield {"b": b, "c": c, "vs": [[x * s for x in u], [float(x) for x in v], [float(x) for x in w]]}
         elif b == "Sphere":
             yield {"b": b, "c": c, "r": rng.choice((0.25, 0.5, 1.0, 2.0, 3.0, 7.5)) if rng.random() < 0.5 else rng.uniform(0.26, 7.9),
-                   "n1": rng.choice((3, 4, 5, 6, 8, 10, 12)), "n2": rng.choice((2, 2, 3, 3, 4, 5))}
+                   "n1": rng.choice((3, 4, 5, 6, 8, 10, 12)), "n2": rng.choice((2, 2, 3, 3, 4, 5)), "rt": rng.choice(("float", "float", "float", "Fraction", "int"))}
         else:
             d, lab = _rand_axis(rng)
             twin = None
@@ -118,7 +120,7 @@ def cases(rng, budget, widx, nworkers, tier):
                 lab = "small-integer"
             n = rng.choice((3, 3, 4, 5, 6, 7, 8, 10, 12, 17, 24)) if rng.random() < 0.8 else rng.randint(3, 24)
             yield {"b": b, "c": c, "r": rng.choice((0.25, 0.5, 1.0, 2.0, 3.0, 7.5)) if rng.random() < 0.5 else rng.uniform(0.26, 7.9),
-                   "axis": d, "n": n, "alab": lab, "twin_axis": twin}
+                   "axis": d, "n": n, "alab": lab, "twin_axis": twin, "rt": rng.choice(("float", "float", "float", "Fraction", "int"))}
 
 
 def _rel(mu, what, got, want, key):
@@ -198,10 +200,20 @@ def judge(case):
                 _rel(mu, "length()", obj.length(), 4 * (K.norm(fv[0]) + K.norm(fv[1]) + K.norm(fv[2])), key)
         return mu.result()
     r = case["r"]
+    rt = case.get("rt")
+    if rt == "Fraction":
+        from fractions import Fraction as _F
+        r = _F(r).limit_denominator(8)
+        mu.cell("radius:Fraction")
+    elif rt == "int":
+        r = max(1, int(round(r)))
+        mu.cell("radius:int")
     fc = tuple(c)
+    rarg = r
+    r = float(r)
     if b == "Sphere":
         n1, n2 = case["n1"], case["n2"]
-        obj, exc, imp = M.call(lambda ce, rr: G.Sphere(ce, rr, n1, n2), centre, r)
+        obj, exc, imp = M.call(lambda ce, rr: G.Sphere(ce, rr, n1, n2), centre, rarg)
         if exc is not None:
             mu.fail("Sphere:raises-%s" % M.classify_exc(exc), "Sphere(n1=%d,n2=%d,r=%r) raised %s: %s" % (n1, n2, r, type(exc).__name__, exc))
             return mu.result()
@@ -278,9 +290,9 @@ def judge(case):
     nhat = K.mul(axis, 1.0 / na)
     key = "%s/%s" % (b, lab.split(":")[0] + (":" + lab.split(":")[1] if ":" in lab else ""))
     if b == "Circle":
-        obj, exc, imp = M.call(lambda ce, nv, rr: G.Circle(ce, nv, rr, n), centre, hv, r)
+        obj, exc, imp = M.call(lambda ce, nv, rr: G.Circle(ce, nv, rr, n), centre, hv, rarg)
     else:
-        obj, exc, imp = M.call(lambda ce, rr, nv: getattr(G, b)(ce, rr, nv, n), centre, r, hv)
+        obj, exc, imp = M.call(lambda ce, rr, nv: getattr(G, b)(ce, rr, nv, n), centre, rarg, hv)
     if exc is not None:
         mu.fail("%s:raises-%s/%s" % (b, M.classify_exc(exc), lab), "%s(axis=%r, n=%d, r=%r) raised %s: %s" % (b, axis, n, r, type(exc).__name__, exc))
         return mu.result()
